@@ -108,6 +108,8 @@ func StdEnv() []EnvVal {
 		{"long", longStrings(), "multi"},
 		{"fprims", system.Collection{&dtpb.String{Value: "a"}, &dtpb.Code{Value: "b"}, &dtpb.Integer{Value: 1}, &dtpb.String{Value: "a"}, &dtpb.Boolean{Value: true}, &dtpb.Decimal{Value: "1.0"}}, "multi"},
 		{"nilc", system.Collection(nil), "empty"},
+		{"sparec", make(system.Collection, 0, 4), "empty"}, // no items, spare capacity (pre-sized or re-sliced by the caller)
+		{"spare3", append(make(system.Collection, 0, 8), system.String("a"), system.String("b"), system.String("c")), "multi"},
 		{"qnoval", &dtpb.Quantity{Code: &dtpb.Code{Value: "mg"}, Unit: &dtpb.String{Value: "mg"}}, "elem-prim"},
 		{"dnoval", &dtpb.Decimal{Extension: []*dtpb.Extension{{Url: &dtpb.Uri{Value: "http://hl7.org/fhir/StructureDefinition/data-absent-reason"}, Value: &dtpb.Extension_ValueX{Choice: &dtpb.Extension_ValueX_Code{Code: &dtpb.Code{Value: "unknown"}}}}}}, "elem-prim"},
 		{"tcoll", system.Collection{system.Boolean(true)}, "multi"},
@@ -154,7 +156,7 @@ var (
 	TimeSrcs = []string{"@T10", "@T10:30", "@T10:30:45", "@T10:30:45.123", "@T10:30:45.5", "@T00:00", "@T23:59:59.999", "@T23:30", "@T08", "%ftime", "(@T01:00 - 2 hours)", "(@T23:00 + 2 hours)", "(@T10:00 + 8784 hours)", "(@T00:00:00.000 - 1 millisecond)"}
 	QtySrcs  = []string{"0 'mg'", "1 'mg'", "1.5 'kg'", "5 'mg'", "1 year", "2 years", "1 month", "13 months", "1 week", "3 weeks", "1 day", "365 days", "1 hour", "25 hours", "90 minutes", "1 second", "1.5 seconds",
 		"1 millisecond", "1000 milliseconds", "1 'wk'", "1 'a'", "1 'mo'", "1 'd'", "1 'h'", "1 'min'", "1 's'", "1 'ms'", "1 '1'", "5.5 'mg'", "-(1 day)", "-(1 'mg')", "2147483648 days", "99999999999 years", "%fqty"}
-	EmptySrcs   = []string{"{}", "%emptyc", "%nilc", "Patient.photo", "Patient.name.suffix"}
+	EmptySrcs   = []string{"{}", "%emptyc", "%nilc", "%sparec", "Patient.photo", "Patient.name.suffix"}
 	MultiSrcs   = []string{"%multi", "%multis", "%multib", "%names", "Patient.name", "Patient.name.given"}
 	ComplexSrcs = []string{"%name", "%coding", "%period", "%ref", "%ext", "%pat", "Patient.name[0]", "Patient", "Patient.contact[0]", "Patient.managingOrganization", "Patient.deceased", "Patient.multipleBirth"}
 	PathSrcs    = []string{"Patient.active", "Patient.birthDate", "Patient.gender", "Patient.id", "Patient.name[0].family", "Patient.telecom[0].rank", "Patient.name[0].use"}
